@@ -4,6 +4,7 @@ import (
 	"fmt"
 	"sort"
 	"sync"
+	"sync/atomic"
 	"time"
 
 	"github.com/hashicorp/raft"
@@ -1180,3 +1181,67 @@ func scFigure8(r *rng) *cluster {
 }
 
 func init() { scenarioFamilies[13] = scFigure8 }
+
+// ---------------------------------------------------------------- family 14: pipeline replication with follower store faults
+// The transport offers AppendEntriesPipeline, so after the first successful AppendEntries every replication goroutine
+// runs pipelineReplicate / pipelineDecode (replication.go).  Then the log stores of one or both followers (and, when
+// present, NOT the non-voter's) refuse writes for a while: the followers answer Success=false without an RPC error.
+// Nothing the leader dispatches meanwhile may be committed, acknowledged or applied unless a voter majority stored it
+// (history monitors commit-without-voter-majority / applied-without-voter-majority / acknowledged...); after the
+// faults stop everything converges.
+func scPipelineFaults(r *rng) *cluster {
+	nnv := r.intn(2)
+	c := basicCluster(clusterOpts{voters: 3, nonvoters: nnv, trailing: 100, maxAppend: 1 + r.intn(4), pipeline: true})
+	note := func(f string, a ...interface{}) { c.h.add(hev{kind: "note", s: "pipe: " + fmt.Sprintf(f, a...)}) }
+	l := c.ensureLeader(r)
+	if l == nil {
+		note("no leader")
+		return c
+	}
+	for i := 0; i < 3; i++ {
+		c.call(l.id, "apply", uint64(3100+i), 0).wait(300 * time.Millisecond)
+	}
+	c.settle(200 * time.Millisecond)
+	var followers []uint64
+	for _, id := range c.ids {
+		if id != l.id && id <= uint64(c.o.voters) {
+			followers = append(followers, id)
+		}
+	}
+	failing := followers
+	if r.chance(1, 3) {
+		failing = followers[:1]
+	}
+	setFail := func(ids []uint64, n int) {
+		for _, id := range ids {
+			o := c.nodes[id].logs.orc
+			o.mu.Lock()
+			o.bits = make([]bool, n)
+			for i := range o.bits {
+				o.bits[i] = true
+			}
+			o.mu.Unlock()
+		}
+	}
+	setFail(failing, 60)
+	note("stores of %v refuse writes; pipelines opened so far %d", failing, atomic.LoadInt64(&c.pipesOpened))
+	var pend []*ccall
+	for i := 0; i < 2+r.intn(3); i++ {
+		pend = append(pend, c.call(l.id, "apply", uint64(3200+i), 0))
+		time.Sleep(time.Duration(r.intn(3)) * time.Millisecond)
+	}
+	time.Sleep(time.Duration(20+r.intn(40)) * time.Millisecond)
+	setFail(failing, 0)
+	note("stores healed; pipeline calls so far %d", atomic.LoadInt64(&c.pipeCalls))
+	for _, p := range pend {
+		p.wait(300 * time.Millisecond)
+	}
+	if nl := c.ensureLeader(r); nl != nil {
+		c.call(nl.id, "apply", 3299, 0).wait(300 * time.Millisecond)
+	}
+	c.settle(400 * time.Millisecond)
+	c.h.add(hev{kind: "note", s: fmt.Sprintf("pipe: pipelines opened %d, pipelined calls %d", atomic.LoadInt64(&c.pipesOpened), atomic.LoadInt64(&c.pipeCalls))})
+	return c
+}
+
+func init() { scenarioFamilies[14] = scPipelineFaults }
